@@ -300,6 +300,10 @@ func run(c *runner.Ctx) {
 				}
 				throughLink = false
 			}
+			if (i+j)%4 == 0 { // two annotated structs declared against the alphabet (round 13)
+				two := inject.File("", []string{inject.StructDecl("Zone", []inject.FieldVariant{f}), inject.Fillers[1], inject.StructDecl("Account", []inject.FieldVariant{g, f}), emb})
+				repeat(c, two, f.Shape+" | "+g.Shape+"+"+f.Shape+" [structs Zone, Account]", n, false, 4)
+			}
 			if (i+j)%3 == 1 { // the headers real generated files carry
 				gh := inject.GeneratedHeaders[((i+j)/3)%len(inject.GeneratedHeaders)]
 				gsrc := inject.File(gh, []string{inject.Fillers[1], inject.StructDecl("Msg", []inject.FieldVariant{f, g}), emb})
